@@ -50,4 +50,18 @@ theorem old_cache_not_transparent :
     (applyLowOld w0 (applyLowOld w0 Cache.empty originCallOther 0 1 1).2 originDriver 0 1 1).1 = .fail := by
   decide
 
+/-- f_call_other with the origin stored ONCE, before the targets are resolved (the seeded change the check first
+    missed): the second element of an array target — or the only target, if resolving it loaded an object — is entered
+    with whatever the global holds, i.e. 0 = the driver's origin, and a static function runs. -/
+def targetStoredOnce (w : World) (g : Cache × Nat) (p ptr : Nat) (name : NameKey) : ApplyRes × (Cache × Nat) :=
+  let (r, c, co) := applyLowG w g.1 g.2 p ptr name
+  (r, (c, co))
+
+theorem origin_stored_once_runs_static :
+    -- array ({ob, ob}), static function `1` of program 0: first element refused, second one runs
+    let g0 : Cache × Nat := (Cache.empty, originCallOther)
+    (targetStoredOnce w0 g0 0 1 1).1 = .fail ∧
+    (targetStoredOnce w0 (targetStoredOnce w0 g0 0 1 1).2 0 1 1).1 = .call 0 0 0 0 := by
+  decide
+
 end NV.C07.Witness
